@@ -144,17 +144,64 @@ def match_close(masked, open_idx):
     raise LexError('unbalanced %s at %d' % (o, open_idx))
 
 
-def find_tokens(text, pattern, start=0, end=None):
-    """All (start, end) byte spans in text[start:end] whose token sequence equals the token
-    sequence of `pattern`."""
+def _pattern_tokens(pattern):
+    """Token list of a pattern; `$name` (a `$` followed by an identifier) is a wildcard that matches
+    one identifier token, `$$name` one string-literal token."""
+    raw = [t[0] for t in tokens(pattern)]
+    out, i = [], 0
+    while i < len(raw):
+        if raw[i] == '$' and i + 2 < len(raw) + 1 and i + 1 < len(raw) and raw[i + 1] == '$' and i + 2 < len(raw):
+            out.append(('STR', raw[i + 2]))
+            i += 3
+        elif raw[i] == '$' and i + 1 < len(raw) and IDENT.fullmatch(raw[i + 1]):
+            out.append(('ID', raw[i + 1]))
+            i += 2
+        else:
+            out.append(('LIT', raw[i]))
+            i += 1
+    return out
+
+
+def find_tokens_b(text, pattern, start=0, end=None):
+    """Like find_tokens but returns [(start, end, bindings)] and supports wildcards."""
     end = len(text) if end is None else end
     toks = [t for t in tokens(text[start:end])]
-    pt = [t[0] for t in tokens(pattern)]
+    pt = _pattern_tokens(pattern)
     if not pt:
         raise LexError('empty pattern')
     res = []
     n, m = len(toks), len(pt)
     for i in range(0, n - m + 1):
-        if toks[i][0] == pt[0] and all(toks[i + k][0] == pt[k] for k in range(1, m)):
-            res.append((start + toks[i][1], start + toks[i + m - 1][2]))
-    return res
+        b = {}
+        ok = True
+        for k in range(m):
+            kind, val = pt[k]
+            t = toks[i + k][0]
+            if kind == 'LIT':
+                if t != val:
+                    ok = False
+                    break
+            elif kind == 'ID':
+                if not IDENT.fullmatch(t) or (val in b and b[val] != t):
+                    ok = False
+                    break
+                b[val] = t
+            else:
+                if not (t.startswith('"') or t.startswith('r"') or t.startswith('r#')):
+                    ok = False
+                    break
+                b[val] = t
+        if ok:
+            res.append((start + toks[i][1], start + toks[i + m - 1][2], b))
+    # drop overlapping matches (keep the leftmost)
+    out, last = [], -1
+    for st, en, b in res:
+        if st >= last:
+            out.append((st, en, b))
+            last = en
+    return out
+
+
+def find_tokens(text, pattern, start=0, end=None):
+    """All (start, end) byte spans in text[start:end] whose token sequence matches `pattern`."""
+    return [(st, en) for st, en, _b in find_tokens_b(text, pattern, start, end)]
